@@ -94,9 +94,10 @@ def assemble(scratch=None):
     librs = os.path.join(scratch, "src", "lib.rs")
     if not os.path.exists(librs):
         raise Undecided("anchor-lost src/lib.rs")
+    shutil.copy2(os.path.join(VERIF, "spec", "verif_spy.rs"), os.path.join(scratch, "src", "verif_spy.rs"))
     with open(librs, "a") as f:
-        f.write("\n#[cfg(kani)]\npub mod verif_spec;\n")
-    info["added"].append("src/verif_spec.rs (cfg(kani) module)")
+        f.write("\n#[cfg(kani)]\npub mod verif_spec;\n#[cfg(kani)]\npub mod verif_spy;\n")
+    info["added"].append("src/verif_spec.rs, src/verif_spy.rs (cfg(kani) modules)")
 
     # 2. contract attributes in front of the named functions
     cdir = os.path.join(VERIF, "contracts")
